@@ -4,7 +4,9 @@ GUARDS = {"BlockConservation.dup", "BlockConservation.lost", "ListsStayInPage", 
           "WalkCount", "WalkEveryLiveOnce", "WalkOnlyLive", "DestructiveAvoidsLive", "LiveAccessible"}
 def run(tier, seed):
     # sequential part: heap programs (native + TLC-generated) against MiApi
-    V, cov = apifam.run_api("C10", tier, seed, profiles=["c10"], builds=["rel", "dbg", "sec"], own_guards=GUARDS, crash_decisive=True, gen=(24, 200), finish=False)
+    # (extra: the heap of a managed arena is deleted while the backing heap has pages in the same segment -- known finding, scenario `arenadel`)
+    extra = [{"_args": ["--scenario", "arenadel"], "_tag": "arenadel", "_builds": ["rel", "dbg"]}]
+    V, cov = apifam.run_api("C10", tier, seed, profiles=["c10"], builds=["rel", "dbg", "sec"], own_guards=GUARDS, crash_decisive=True, gen=(24, 200), finish=False, extra_runs=extra)
     # concurrent part: mi_heap_delete / mi_heap_collect racing with remote frees into that heap, under the deterministic scheduler
     jobs = [
         {"prog": "page-delete", "strategy": "random", "runs": (250, 3000), "args": ["--snap", "3", "--spurious", "2", "--rate", "3"]},
